@@ -19,6 +19,11 @@ RULE = ('T2: formatparam (generic and cookie tspecials), bytes(element) after co
 	'(values, names, element value, number of parameters) in every class and in lists; one element object serialised, changed through every public way and serialised again, compared '
 	'with the data assigned and with a fresh element (seq); the same data written by an independent serialiser in token / quoted / extended form (alt); every registered '
 	'generic-grammar class under its field name in several letter cases (reg); every known charset in an extended parameter (charset); everything parsed / serialised twice. '
+	'Wave 5: ASCII values handed over as bytes (also through the model); two elements built from one argument object / from each other\'s params / from the same octets, one of them or the '
+	'argument changed (alias); the same data in every container, key and value type through every way of construction, user subclasses with the class-level encoding switch (types); '
+	'calls that raise on or next to an element that is used afterwards (refuse); list fields built member by member - append / append_element / merge / repeated non-adjacent lines - '
+	'with members that share element values, in every order, with observers, other fields and refused calls in between (apl); values with white space like octets in their encoded form, '
+	'lengths 2^k and neighbours for k = 9..16 with the only separator / non-ASCII character at the far end. '
 	'non-trivial = distinct (kind, input)')
 EXHAUSTIVE = {'quick': False, 'thorough': False}
 TRUSTED = ['harness/tables/element.py, headers_api.py, percent.py (T1: tspecials classes, pinned regex texts, extended-parameter framing, cookie attribute names, charset alias '
@@ -573,6 +578,336 @@ def gen_wave4(rng, tier):
 	return cases
 
 
+# ------------------------------------------------------------------ strengthening (wave 5): aliasing, argument types, refused operations, knobs, order, order of calls,
+# value-dependent rare branches, lengths at powers of two.  Everything here is generated AFTER the earlier cases (same cases as before for a given seed).
+P5_NAMES = ['a', 'b', 'filename', 'name', 'foo', 'x-y', 'c1', 'p', 'lang', 'size']
+P5_COOKIE = ['a', 'b', 'foo', 'x-y', 'c1', 'p', 'path', 'domain', 'max-age', 'samesite']
+APL_TOKENS = ['tok', 'a', 'b', 'close', 'Accept', 'gzip', 'x-1', 'attachment', 'zz', 'keep-alive']
+APL_COOKIES = [['sid', '1'], ['sid', '2'], ['lang', 'de'], ['a', '1'], ['b', ''], ['SID', 'abc.def']]
+# single backslashes (not in front of a backslash or a double quote: that is the known D17 class), the values of the 'opaque string' kind
+BSL_TEXTS = ['C:\\temp\\report.txt', 'dir\\', 'a\\b c', '\\', 'a\\b;c', 'x\\y', '\\a b\\', 'say "hi"\\now', 'a\\b "c" d', '\\.\\', 'a\\,b', 'domain\\user=1']
+PTYPES = ['dict', 'odict', 'list', 'tuple', 'listlist', 'iter', 'gen', 'map', 'chain', 'items', 'zip', 'bud', 'params']
+REITER = ('dict', 'odict', 'list', 'tuple', 'listlist', 'items', 'bud', 'params')
+MUTABLE = ('dict', 'odict', 'list', 'listlist', 'bud', 'params')
+# white space of str.strip() / str.isspace() that is not white space of the wire grammar
+UNI_WS = ['\x85', '\xa0', '\u1680', '\u2000', '\u2001', '\u2004', '\u2009', '\u200a', '\u2028', '\u2029', '\u202f', '\u205f', '\u3000', '\x1c', '\x1d', '\x1e', '\x1f']
+RARE_ASCII = ['=', '==', '%', '%2', "'", "''", '*', '\\', 'a=', '.', '-', 'x y', 'a=b', '/', '?', ':', '%20', '%0A', '%0D%0A', '+', '~', '!', '|', '^', '`', '{', '}', '\x7f', '\x10', '\x1f']
+
+
+def _ws_octet_char(rng):
+	"""a character whose UTF-8 form ends in, or has in the middle, an octet that is white space in Latin-1 / Unicode (0x85 NEL, 0xA0 NBSP): found by construction -
+	the low six bits of the code point are the low six bits of the last octet"""
+	r = rng.random()
+	if r < 0.45:
+		cp = rng.choice([rng.randint(0x80, 0x7ff), rng.randint(0x800, 0xd7ff), rng.randint(0xe000, 0xffff), rng.randint(0x10000, 0x10ffff)])
+		return chr((cp & ~0x3f) | rng.choice([0x05, 0x20]))
+	if r < 0.6:
+		cp = rng.randint(0x1000, 0xcfff)
+		return chr((cp & ~0xfc0) | (rng.choice([0x05, 0x20]) << 6))
+	if r < 0.7:
+		# UTF-16 / UTF-32 forms with a 0x20, 0x0A, 0x0D, 0x09 or 0x00 octet
+		return chr(rng.choice([0x2000 + rng.randint(0, 0xff), 0x0a00 + rng.randint(0, 0xff), 0x0d00 + rng.randint(0, 0xff), 0x0900 + rng.randint(0, 0xff), 0x100 * rng.randint(1, 0xd7), 0x2020, 0x0a0a, 0x0d0a]))
+	return rng.choice(UNI_WS)
+
+
+def gen_rare_text(rng):
+	"""(16) cheap multi-piece values whose encoded form has a white space like octet, padding or an escape look-alike at an edge or inside"""
+	core = [rng.choice(['a', 'b.txt', 'é', '€', 'x y', 'März', '1', 'é è', 'Ω'] + RARE_ASCII) for _ in range(rng.randint(0, 3))]
+	r = rng.random()
+	w = _ws_octet_char(rng)
+	if r < 0.3:
+		t = ''.join(core) + w
+	elif r < 0.55:
+		t = w + ''.join(core)
+	elif r < 0.7:
+		t = w + ''.join(core) + _ws_octet_char(rng)
+	elif r < 0.85:
+		i = rng.randint(0, len(core))
+		t = ''.join(core[:i]) + w + ''.join(core[i:])
+	else:
+		t = ''.join(core) + rng.choice(RARE_ASCII)
+	return t.strip(WS)
+
+
+def val5(rng, cookie=False, noctl=False, maxlen=80):
+	"""a parameter value of the property domain outside the classes of the known findings"""
+	for _ in range(200):
+		r = rng.random()
+		t = rng.choice(BSL_TEXTS) if r < 0.12 else (gen_rare_text(rng) if r < 0.3 else gen_class_text(rng, cookie, True, maxlen))
+		if not safe_text(t, cookie):
+			continue
+		if noctl and any(ord(ch) < 0x20 or ord(ch) == 0x7f for ch in t):
+			continue
+		return t
+	return 'x'
+
+
+def _vt5(rng, params, p=0.35):
+	"""per parameter: value handed over as str ('t') or - ASCII only - as bytes ('b')"""
+	return ''.join('b' if (all(ord(ch) < 128 for ch in v['t']) and rng.random() < p) else 't' for n, v in params)
+
+
+def _elem5(rng, cls, noctl=False, value=None, nmax=3, nmin=0):
+	cookie = cls in ('cookie', 'setcookie')
+	names = rng.sample(P5_COOKIE if cookie else P5_NAMES, rng.randint(nmin, nmax))
+	params = [[n, {'t': val5(rng, cookie, noctl)}] for n in names]
+	v = value if value is not None else (gen_value(rng, cls, 'prop').lower() if cls == 'disp' else gen_value(rng, 'generic' if cookie else cls, 'prop'))
+	return {'cls': 'cookie' if cookie else cls, 'value': v, 'cookie': gen_cookie(rng, 'prop'), 'params': params, 'vt': _vt5(rng, params), 'kt': rng.choice('ttbm')}
+
+
+def _apl_fields():
+	"""registered field names whose class keeps every list operation of the generic element (split, join, sorted, merge, equality, parse)"""
+	from httoop.header.element import HeaderElement
+	f = lambda cls, m: getattr(getattr(cls, m), '__func__', getattr(cls, m))
+	return sorted(n for n, cls in _registry_fields().items() if all(f(cls, m) is f(HeaderElement, m) for m in ('sorted', 'merge', '__eq__', '__init__', 'sanitize', 'parse', 'join', 'split')) and
+		n not in ('Content-Length', 'Host', 'Date', 'Age', 'Expires', 'Retry-After', 'Max-Forwards'))
+
+
+def gen_apl(rng, fields):
+	"""(14)(15)(11)(12) a list field built member by member - append() of bytes / str / bytearray, append(value, **params), append_element() - or from repeated,
+	non-adjacent field lines, or merged from two header sets; members share element values (same value with other parameters, exact duplicates), come unsorted,
+	sorted and reverse-sorted; other fields are set, read-only observers run and refused calls are made in between"""
+	lcls = rng.choice(['generic', 'generic', 'generic', 'reg', 'setcookie', 'setcookie', 'cookie'])
+	field = {'generic': rng.choice(['X-List', 'X-Generic']), 'reg': rng.choice(fields) if fields else 'X-List', 'setcookie': 'Set-Cookie', 'cookie': 'Cookie'}[lcls]
+	if lcls == 'reg':
+		lcls = 'generic'
+	n = rng.choice([2, 2, 3, 3, 4, 5, 6])
+	pool = rng.sample(APL_TOKENS, rng.randint(1, 3))
+	cpool = rng.sample(APL_COOKIES, rng.randint(1, 3))
+	elems = []
+	for i in range(n):
+		e = _elem5(rng, lcls, noctl=True, value=rng.choice(pool), nmax=0 if lcls == 'cookie' else 3)
+		e['cookie'] = list(rng.choice(cpool))
+		r = rng.random()
+		if elems and r < 0.15:
+			# an exact duplicate of an earlier member
+			prev = rng.choice(elems)
+			e = json.loads(json.dumps(prev))
+		elif elems and r < 0.45 and lcls != 'cookie':
+			# the value and the parameter names of an earlier member, other parameter values
+			prev = rng.choice(elems)
+			e['value'], e['cookie'] = prev['value'], list(prev['cookie'])
+			e['params'] = [[p[0], {'t': val5(rng, lcls != 'generic', True)}] for p in prev['params']] or e['params']
+			e['vt'] = _vt5(rng, e['params'])
+		elems.append(e)
+	order = rng.choice(['asis', 'asis', 'sorted', 'reverse'])
+	key = (lambda e: e['value']) if lcls == 'generic' else (lambda e: e['cookie'])
+	if order != 'asis':
+		elems.sort(key=key, reverse=order == 'reverse')
+	hows = ['bytes', 'bytes', 'str', 'bytearray', 'kw', 'kw', 'elem', 'elempairs', 'elemiter']
+	if lcls == 'cookie':
+		hows = ['bytes', 'str', 'bytearray', 'elem']
+	path = rng.choice(['append', 'append', 'append', 'mixed', 'merge', 'lines', 'lines'])
+	inter = []
+	for i in range(n):
+		r = rng.random()
+		inter.append('other' if r < 0.3 else ('observe' if r < 0.5 else (rng.choice(['refuse:param', 'refuse:name', 'refuse:elem', 'refuse:value']) if r < 0.62 else '')))
+	return {'k': 'apl', 'lcls': lcls, 'field': field, 'spell': [_spell(rng, field) for _ in range(3)], 'read': _spell(rng, field), 'elems': elems,
+		'how': [rng.choice(hows) for _ in range(n)], 'path': path, 'cut': rng.randint(1, n - 1), 'inter': inter, 'ows': rng.randrange(1 << 16)}
+
+
+def _steps5(rng, cls, targets, haves, argmut):
+	"""mutations of the parameters / value of one of several objects; haves: target -> parameter names it holds now (kept up to date)"""
+	cookie = cls == 'cookie'
+	pn = P5_COOKIE if cookie else P5_NAMES
+	val = lambda: {'t': val5(rng, cookie)}
+	vk = lambda v: 'b' if all(ord(ch) < 128 for ch in v['t']) and rng.random() < 0.3 else 't'
+	steps = []
+	for _ in range(rng.randint(1, 4)):
+		tgt = rng.choice(targets)
+		have = haves[tgt]
+		r = rng.random()
+		if tgt == 'arg':
+			if r < 0.6:
+				n = 'arg%d' % len(steps)
+				steps.append(['arg', 'set', n, val()])
+				have.append(n)
+			elif r < 0.85 and have:
+				have.pop(0)
+				steps.append(['arg', 'delfirst'])
+			else:
+				del have[:]
+				steps.append(['arg', 'clear'])
+			continue
+		if r < 0.35:
+			n = rng.choice(pn + ['zz', 'new-1'])
+			v = val()
+			steps.append([tgt, 'set', n, v, rng.choice('bt'), vk(v)])
+			if n not in have:
+				have.append(n)
+		elif r < 0.5 and have:
+			n = rng.choice(have)
+			have.remove(n)
+			steps.append([tgt, rng.choice(['del', 'pop']), n])
+		elif r < 0.62:
+			ns = rng.sample(pn, rng.randint(1, 2))
+			steps.append([tgt, 'update', [[n, val()] for n in ns]])
+			have.extend(n for n in ns if n not in have)
+		elif r < 0.7:
+			n = rng.choice(pn)
+			steps.append([tgt, 'setdefault', n, val()])
+			if n not in have:
+				have.append(n)
+		elif r < 0.76:
+			del have[:]
+			steps.append([tgt, 'clear'])
+		elif r < 0.9 and cls == 'ctype':
+			a = rng.choice(['charset', 'version', 'boundary'])
+			t = {'charset': rng.choice(['utf-8', 'ISO-8859-1', 'koi8-r', val5(rng, False, False, 40)]), 'version': rng.choice(['1', '1.1', 'x y']), 'boundary': rng.choice(['abc', 'a b', '----=_Part_1', "a'b"])}[a]
+			steps.append([tgt, 'attr', a, t])
+			if a not in have:
+				have.append(a)
+		elif r < 0.9 and cookie:
+			steps.append([tgt, 'cookie'] + gen_cookie(rng, 'prop'))
+		elif r < 0.9 and cls == 'generic':
+			steps.append([tgt, 'value', gen_value(rng, cls, 'prop')])
+		else:
+			steps.append([tgt, 'ser'])
+	return steps
+
+
+def gen_alias(rng):
+	"""(10)(11) two elements built from the same argument object (a dict, a list of pairs, an iterator, a ByteUnicodeDict, the .params of the other element, the same
+	octets parsed twice, the same field read twice); one of them - or the argument object - is changed; every object must serialise its own data"""
+	cls = rng.choice(CLASSES)
+	e = _elem5(rng, cls, nmin=1)
+	ptype = rng.choice(PTYPES)
+	src = rng.choice(['arg', 'arg', 'params', 'params', 'params', 'items', 'iter', 'parse', 'elements'])
+	if src == 'arg' and ptype not in REITER:
+		src = 'params'
+	setcookie = cls == 'cookie' and rng.random() < 0.5
+	if src == 'elements' and cls == 'cookie':
+		setcookie = True   # the members of a Cookie field have no parameters
+	second = _elem5(rng, cls, nmax=0)
+	names = [p[0] for p in e['params']]
+	targets = ['A', 'B', 'B'] + (['arg'] if ptype in MUTABLE and src not in ('parse', 'elements') else [])
+	haves = {'A': list(names), 'B': list(names), 'arg': list(names)}
+	c = dict(e, k='alias', ptype=ptype, src=src, setcookie=setcookie, value2=second['value'], cookie2=second['cookie'])
+	if src in ('parse', 'elements'):
+		c['value2'], c['cookie2'] = c['value'], c['cookie']
+	c['steps'] = _steps5(rng, cls, targets, haves, ptype in MUTABLE)
+	return c
+
+
+def gen_types(rng):
+	"""(11)(13)(14)(15) the same data handed over in every container / key / value type, through the constructor, by assignment, update(), setdefault(), create_element();
+	parsed from bytes and from a bytearray; through a user subclass with the class-level encoding switch either way; parameters unsorted / sorted / reverse-sorted"""
+	cls = rng.choice(CLASSES)
+	e = _elem5(rng, cls, nmin=1, nmax=4)
+	order = rng.choice(['asis', 'sorted', 'reverse'])
+	if order != 'asis':
+		e['params'].sort(key=lambda p: p[0], reverse=order == 'reverse')
+		e['vt'] = _vt5(rng, e['params'])
+	c = dict(e, k='types', ptype=rng.choice(PTYPES), build=rng.choice(['ctor', 'ctor', 'ctor', 'assign', 'update', 'setdefault', 'kw', 'mixed', 'attr']),
+		parse_as=rng.choice(['bytes', 'bytes', 'bytearray']), sub=rng.choice([None, None, 'plain', 'qp', 'noqp', 'assigned']), setcookie=cls == 'cookie' and rng.random() < 0.5)
+	if cls == 'generic' and rng.random() < 0.3:
+		# an element value outside ASCII but inside Latin-1 (sent as it is, or as an encoded word when the class says so)
+		c['value'] = rng.choice(['café', 'é', 'ÿ', 'a©b', 'Åre', 'x\xa0y', 'ü-1'])
+	if c['build'] == 'attr':
+		c['cls'], c['value'], c['setcookie'] = 'ctype', rng.choice(['text/plain', 'application/json', 'a/b+c']), False
+		c['params'] = [[n, {'t': t}] for n, t in rng.sample([['charset', rng.choice(['utf-8', 'ISO-8859-1', 'koi8-r', 'utf-16', 'cp1252'])], ['version', rng.choice(['1', '1.1'])],
+			['boundary', rng.choice(['abc', '----=_Part_1', "a'b", 'a b'])]], rng.randint(1, 3))]
+		c['vt'] = ''
+	return c
+
+
+def gen_refuse(rng):
+	"""(12) calls that raise (wrong key type, missing key, unencodable text, invalid wire form, invalid constructor argument) on or next to an element that is used afterwards"""
+	cls = rng.choice(CLASSES)
+	cookie = cls == 'cookie'
+	e = _elem5(rng, cls, nmin=1)
+	menu = [['setkey', rng.choice(['int', 'none', 'float', 'tuple'])], ['update_bad', rng.choice(['int', 'none', 'pairs', 'str'])], ['del_missing', 'zz-missing'], ['setdefault_bad', rng.choice(['int', 'none'])],
+		['ser_bad', 'zz', rng.choice(['surrogate', 'surrogate2', 'int', 'list'])], ['parse_bad', rng.choice([b'v; a=x y', b'v; a=1; a=2', b"v; a*=bogus''x", b"v; a*=utf-8''%ff", b'v; a=(x)', b'n=v; a=1; a=2']).hex()],
+		['ctor_bad', rng.choice(['int', 'str', 'pairs3'])], ['fmt_bad', rng.choice(['surrogate', 'int'])], ['noop_pop', 'zz-missing'], ['noop_get', 'zz-missing']]
+	if cookie:
+		menu.append(['cookie_value_bad', rng.choice(['né€=1', '€', 'a=\u0100'])])
+	else:
+		menu.append(['value_bad', rng.choice(['surrogate', 'surrogate2'])])
+	if cls == 'ctype':
+		menu.append(['boundary_bad', rng.choice(['b\x01ad', 'é', 'x' * 202, '', 'a\x7f'])])
+	ops = [rng.choice(menu) for _ in range(rng.randint(1, 3))]
+	v = {'t': val5(rng, cookie)}
+	then = ['E', 'set', rng.choice(P5_COOKIE if cookie else P5_NAMES), v, rng.choice('bt'), 't']
+	return dict(e, k='refuse', ops=ops, then=then, setcookie=cookie and rng.random() < 0.5)
+
+
+POW2 = [1 << k for k in range(9, 17)]
+
+
+def gen_wave5(rng, tier):
+	from harness.props.C08 import ALPHABETS, text_of_len
+	big = tier == 'thorough'
+	one = lambda cls, key, t: {'cls': cls, 'value': 'inline' if cls == 'disp' else ('text/plain' if cls == 'ctype' else 'v'), 'cookie': ['n', 'v'], 'params': [[key, {'t': t}]]}
+	cases = []
+	# (11) ASCII parameter values handed over as bytes instead of str - through the Coq model as well: single backslashes, quote-dense and separator-dense values
+	shapes = [t for t in quote_shapes(False) if '\\' in t and all(ord(ch) < 128 for ch in t)]
+	for i, t in enumerate(BSL_TEXTS + shapes):
+		cls = ['generic', 'disp', 'ctype'][i % 3]
+		cases.append(dict(one(cls, 'filename' if cls == 'disp' else 'a', t), k='rt'))
+		cases[-1]['params'][0][1] = {'b': t.encode('ascii').hex()}
+		if i % 4 == 0:
+			a, b = one('generic', 'a', t), one('generic', 'b', 'y z')
+			a['params'][0][1] = {'b': t.encode('ascii').hex()}
+			cases.append({'k': 'rt_list', 'lcls': 'generic', 'elems': [b, a] if i % 8 else [a, b]})
+	for _ in range(3000 if big else 220):
+		e = gen_elem(rng, domain='prop')
+		e['params'] = [p for p in e['params'] if p[0] != 'boundary'] or [['a', None]]
+		for p in e['params']:
+			t = rng.choice(BSL_TEXTS) if rng.random() < 0.3 else (gen_qtext(rng) if rng.random() < 0.5 else gen_class_text(rng, e['cls'] == 'cookie'))
+			if p is e['params'][0] or rng.random() < 0.5:
+				p[1] = {'b': t.encode('ascii').hex()} if all(ord(ch) < 128 for ch in t) else {'t': t}
+		cases.append(dict(e, k='rt'))
+	# (16) value-dependent rare branches: many cheap multi-piece values with white space like octets in their encoded form, padding and escape look-alikes at the edges
+	for i in range(4000 if big else 380):
+		cls = CLASSES[i % 4]
+		t = val5(rng, cls == 'cookie') if i % 3 else gen_rare_text(rng)
+		if not safe_text(t, cls == 'cookie'):
+			continue
+		j = i % 5
+		if j < 3:
+			cases.append(dict(one(cls, rng.choice(['filename', 'a', 'name']), t), k='rt', nocoq=j != 0))
+		elif j == 3:
+			cases.append(dict(one(cls, rng.choice(['filename', 'a', 'name']), t), k='alt', style=rng.randrange(1 << 30)))
+		elif safe_text(t, True):
+			lcls = rng.choice(['generic', 'setcookie'])
+			mk = lambda tt: one('generic' if lcls == 'generic' else 'cookie', 'a', tt)
+			cases.append({'k': 'rt_list', 'lcls': lcls, 'nocoq': True, 'elems': [mk(t), mk(val5(rng, True, True)), mk(t)]})
+	# (17) lengths that are powers of two (512 ... 65536) and their neighbours: values (token, quoted, extended), names, element value, number of parameters / members
+	for n in POW2:
+		for d in (-1, 0, 1):
+			for alpha in ('ascii', 'asciisp', 'bmp', 'latin1'):
+				if n + d > 20000 and alpha in ('asciisp', 'latin1') and not big:
+					continue
+				t = text_of_len(rng, n + d, alpha)
+				if alpha == 'asciisp':
+					t = t.replace('"', 'q')   # an odd number of double quotes is the known D17 class
+				cls = rng.choice(['generic', 'disp', 'ctype', 'cookie']) if alpha != 'asciisp' else rng.choice(['generic', 'disp', 'ctype'])
+				cases.append(dict(one(cls, 'filename' if cls == 'disp' else 'a', t), k='rt', nocoq=True))
+			# the only character that asks for the quoted / the extended form sits at the far end of a long token
+			# (at index n - 1, n, n + 1: behind a prefix of exactly that many token characters)
+			t = text_of_len(rng, n + d, 'ascii')
+			cases.append(dict(one(rng.choice(['generic', 'disp', 'ctype']), 'a', t + rng.choice(' ,;=/\\') + 'z'), k='rt', nocoq=True))
+			cases.append(dict(one(rng.choice(CLASSES), 'a', t + rng.choice('é€\U0001f600')), k='rt', nocoq=True))
+			if n <= 4096 or big:
+				nm = ''.join('abcdxyz019-_.'[(i * 5) % 13] for i in range(n + d))
+				cases.append(dict(one('generic', nm, 'x y'), k='rt', nocoq=True))
+				cases.append(dict(one('generic', 'a', 'x y'), k='rt', value=''.join(TOKCH[(i * 7) % len(TOKCH)] for i in range(n + d)), nocoq=True))
+			if n <= 1024 or (big and n <= 2048):
+				cases.append({'cls': 'generic', 'value': 'v', 'cookie': ['n', 'v'], 'params': [['p%d' % i, {'t': 'v %d' % i if i % 3 else 'é%d' % i}] for i in range(n + d)], 'k': 'rt', 'nocoq': True})
+				cases.append({'k': 'rt_list', 'lcls': 'generic', 'nocoq': True, 'elems': [one('generic', 'a', 'v,%d' % i if i % 3 else 'é;%d' % i) for i in range(n + d)]})
+	# (10)-(15): aliasing, argument types, refused calls, class-level switches, order, order of calls
+	fields = _apl_fields()
+	for _ in range(9000 if big else 800):
+		cases.append(gen_apl(rng, fields))
+	for _ in range(9000 if big else 800):
+		cases.append(gen_alias(rng))
+	for _ in range(7000 if big else 600):
+		cases.append(gen_types(rng))
+	for _ in range(4000 if big else 350):
+		cases.append(gen_refuse(rng))
+	return cases
+
+
 def gen_cases(rng, tier):
 	big = tier == 'thorough'
 	cases = []
@@ -616,6 +951,7 @@ def gen_cases(rng, tier):
 	# last, so that the cases above are the same as before for a given seed
 	cases.extend(quote_cases(rng, big))
 	cases.extend(gen_wave4(rng, tier))
+	cases.extend(gen_wave5(rng, tier))
 	return cases
 
 
@@ -643,6 +979,8 @@ def _pv(v):
 
 
 def _u8(s):
+	if isinstance(s, bytes):
+		s = s.decode('latin-1')   # an ASCII parameter value that was handed over as bytes is held as bytes
 	return s.encode('utf-8', 'surrogatepass').hex()
 
 
@@ -800,9 +1138,402 @@ def alt_wire(c, rng):
 	return out + rng.choice([b'', b'', b' ', b';', b'; '])
 
 
+# ------------------------------------------------------------------ observation (wave 5)
+FIELD5 = {'generic': 'X-List', 'ctype': 'Content-Type', 'disp': 'Content-Disposition', 'cookie': 'Cookie', 'setcookie': 'Set-Cookie'}
+BAD5 = {'surrogate': 'a\ud800', 'surrogate2': '\udfff€', 'int': 5, 'none': None, 'float': 1.5, 'tuple': ('a',), 'list': ['x'], 'str': 'abc', 'pairs': [('zz', '1')], 'pairs3': [('a', 'b', 'c')]}
+_SUB5 = {}
+
+
+def _cls5(c):
+	return 'setcookie' if c['cls'] == 'cookie' and c.get('setcookie') else c['cls']
+
+
+def _sub5(base, flag):
+	"""a user subclass of an element class; the class-level switch for the encoding of the element value set in the class body, or assigned afterwards"""
+	if not flag:
+		return base
+	if (base, flag) not in _SUB5:
+		body = {'qp': {'encode_latin1_quoted_printable': True}, 'noqp': {'encode_latin1_quoted_printable': False}}.get(flag, {})
+		sub = type(base)('Sub' + base.__name__.replace('-', ''), (base,), dict(body))
+		if flag == 'assigned':
+			sub.encode_latin1_quoted_printable = True
+			sub.encode_latin1_quoted_printable = False
+		_SUB5[(base, flag)] = sub
+	return _SUB5[(base, flag)]
+
+
+def _tv5(t, kind):
+	return t.encode('ascii') if kind == 'b' and all(ord(ch) < 128 for ch in t) else t
+
+
+def _pairs5(c, params=None):
+	"""the parameters as typed (key, value) pairs: keys str / bytes / alternating, values str or - where the case says so and the text is ASCII - bytes"""
+	params = c['params'] if params is None else params
+	vt, kt = c.get('vt') or '', c.get('kt', 't')
+	out = []
+	for i, (n, v) in enumerate(params):
+		out.append((n.encode('utf-8') if kt == 'b' or (kt == 'm' and i % 2) else n, _tv5(v['t'], vt[i] if i < len(vt) else 't')))
+	return out
+
+
+def _mk_params(ptype, pairs):
+	import collections
+	import itertools
+	from httoop.util import ByteUnicodeDict
+	pairs = list(pairs)
+	if ptype == 'dict':
+		return dict(pairs)
+	if ptype == 'odict':
+		return collections.OrderedDict(pairs)
+	if ptype == 'list':
+		return list(pairs)
+	if ptype == 'tuple':
+		return tuple(pairs)
+	if ptype == 'listlist':
+		return [list(p) for p in pairs]
+	if ptype == 'iter':
+		return iter(pairs)
+	if ptype == 'gen':
+		return (p for p in pairs)
+	if ptype == 'map':
+		return map(tuple, [list(p) for p in pairs])
+	if ptype == 'chain':
+		return itertools.chain(pairs[:1], pairs[1:])
+	if ptype == 'items':
+		return dict(pairs).items()
+	if ptype == 'zip':
+		return zip([p[0] for p in pairs], [p[1] for p in pairs])
+	if ptype == 'bud':
+		return ByteUnicodeDict(pairs)
+	if ptype == 'params':
+		return _impl()['generic']('other', dict(pairs)).params
+	raise ValueError(ptype)
+
+
+def _new5(cls, c, arg, second=False):
+	if c['cls'] == 'cookie':
+		n, v = c['cookie2'] if second else c['cookie']
+		return cls(n, v, arg)
+	return cls(c['value2'] if second else c['value'], arg)
+
+
+def _snap5(arg):
+	items = arg.items() if hasattr(arg, 'items') else arg
+	out = []
+	for k, v in items:
+		out.append([(k if isinstance(k, bytes) else k.encode('utf-8')).hex(), _u8(v.decode('latin-1') if isinstance(v, bytes) else v)])
+	return out
+
+
+def _apply5(e, st):
+	"""one change of an element through a public way"""
+	op = st[0]
+	key = lambda n, kind='b': n.encode('utf-8') if kind == 'b' else n
+	if op == 'set':
+		e.params[key(st[1], st[3])] = _tv5(st[2]['t'], st[4])
+	elif op == 'del':
+		del e.params[key(st[1])]
+	elif op == 'pop':
+		e.params.pop(key(st[1], 't'))
+	elif op == 'update':
+		e.params.update(dict((key(n, 'bt'[i % 2]), v['t']) for i, (n, v) in enumerate(st[1])))
+	elif op == 'setdefault':
+		e.params.setdefault(key(st[1], 't'), st[2]['t'])
+	elif op == 'clear':
+		e.params.clear()
+	elif op == 'attr':
+		setattr(e, st[1], st[2])
+	elif op == 'value':
+		e.value = st[1]
+	elif op == 'cookie':
+		e.cookie_name, e.cookie_value = st[1], st[2]
+	elif op == 'ser':
+		bytes(e), str(e), repr(e)
+	else:
+		raise ValueError(op)
+
+
+def _ser5(e, clsname, cls=None):
+	out = bytes(e)
+	try:
+		back = _elem_obs((cls or _impl()[clsname]).parse(out), clsname)
+	except Exception as exc:
+		back = {'err': _exc(exc)}
+	return {'out': out.hex(), 'back': back, 'state': _elem_obs(e, clsname)}
+
+
+def _alias(c):
+	I = _impl()
+	clsname = _cls5(c)
+	cls = I[clsname]
+	pairs = _pairs5(c)
+	arg = _mk_params(c['ptype'], pairs)
+	src = c['src']
+	if src in ('parse', 'elements'):
+		wire = bytes(_new5(cls, c, dict(pairs)))
+		arg = None
+		if src == 'parse':
+			A, B = cls.parse(wire), cls.parse(wire)
+		else:
+			h = I['Headers']()
+			h[FIELD5[clsname]] = wire
+			A, B = h.elements(FIELD5[clsname])[0], h.elements(FIELD5[clsname])[0]
+	else:
+		A = _new5(cls, c, arg)
+		B = _new5(cls, c, {'arg': arg, 'params': A.params, 'items': A.params.items(), 'iter': iter(A.params.items())}[src], True)
+	objs = {'A': A, 'B': B}
+	for st in c['steps']:
+		if st[0] != 'arg':
+			_apply5(objs[st[0]], st[1:])
+		elif st[1] == 'set':
+			if hasattr(arg, 'items'):
+				arg[st[2]] = st[3]['t']
+			else:
+				arg.append((st[2], st[3]['t']) if c['ptype'] == 'list' else [st[2], st[3]['t']])
+		elif st[1] == 'delfirst':
+			if hasattr(arg, 'items'):
+				del arg[next(iter(arg))]
+			else:
+				arg.pop(0)
+		else:
+			arg.clear()
+	o = {'A': _ser5(A, clsname), 'B': _ser5(B, clsname)}
+	if arg is not None and c['ptype'] in REITER:
+		o['arg'] = _snap5(arg)
+	if clsname in ('generic', 'setcookie'):
+		h = I['Headers']()
+		h.append(FIELD5[clsname], bytes(A))
+		h.append(FIELD5[clsname], bytes(B))
+		try:
+			o['list'] = [_elem_obs(e, clsname) for e in h.elements(FIELD5[clsname])]
+		except Exception as exc:
+			o['list'] = {'err': _exc(exc)}
+	return o
+
+
+def _types(c):
+	I = _impl()
+	clsname = _cls5(c)
+	cls = _sub5(I[clsname], c.get('sub'))
+	pairs = _pairs5(c)
+	build = c['build']
+	args = tuple(c['cookie']) if c['cls'] == 'cookie' else (c['value'],)
+	if build == 'ctor':
+		e = cls(*(args + (_mk_params(c['ptype'], pairs),)))
+	elif build == 'kw':
+		if c.get('sub'):
+			e = cls(*args, params=_mk_params(c['ptype'], pairs))
+		else:
+			e = I['Headers']().create_element(FIELD5[clsname], *args, params=_mk_params(c['ptype'], pairs))
+	elif build == 'mixed':
+		e = cls(*(args + (_mk_params(c['ptype'], pairs[:len(pairs) // 2]),)))
+		for k, v in pairs[len(pairs) // 2:]:
+			e.params[k] = v
+	else:
+		e = cls(*args)
+		if build == 'assign':
+			for k, v in pairs:
+				e.params[k] = v
+		elif build == 'update':
+			e.params.update(dict(pairs))
+		elif build == 'setdefault':
+			for k, v in pairs:
+				e.params.setdefault(k, v)
+		elif build == 'attr':
+			for k, v in pairs:
+				setattr(e, k if isinstance(k, str) else k.decode('ascii'), v)
+		else:
+			raise ValueError(build)
+	wire = bytes(e)
+	# reference form: the base class, the constructor, a plain dict with str keys and str values
+	ref = I[clsname](*(args + (dict((n, v['t']) for n, v in c['params']),)))
+	o = {'out': wire.hex(), 'ref': bytes(ref).hex(), 'state': _elem_obs(e, clsname), 'type': type(e).__name__}
+	given = {'bytes': wire, 'bytearray': bytearray(wire)}[c['parse_as']]
+	try:
+		back = cls.parse(given)
+		o['back'] = _elem_obs(back, clsname)
+		o['backtype'] = type(back) is cls
+		o['given'] = bytes(given) == wire
+	except Exception as exc:
+		o['back'] = {'err': _exc(exc)}
+	return o
+
+
+def _refused5(e, cls, c, op):
+	"""-> name of the exception the call raised, or None; every call here leaves - or must leave - the element as it was"""
+	kind = op[0]
+	try:
+		if kind == 'setkey':
+			e.params[BAD5[op[1]]] = 'x'
+		elif kind == 'update_bad':
+			e.params.update(BAD5[op[1]])
+		elif kind == 'del_missing':
+			del e.params[op[1]]
+		elif kind == 'setdefault_bad':
+			e.params.setdefault(BAD5[op[1]], 'x')
+		elif kind == 'noop_pop':
+			e.params.pop(op[1])
+		elif kind == 'noop_get':
+			e.params.get(op[1]), op[1] in e.params, e.params.get(op[1].encode())
+		elif kind == 'parse_bad':
+			cls.parse(bytes.fromhex(op[1]))
+		elif kind == 'ctor_bad':
+			cls(*((tuple(c['cookie']) if c['cls'] == 'cookie' else (c['value'],)) + (BAD5[op[1]],)))
+		elif kind == 'fmt_bad':
+			cls.formatparam(b'zz', BAD5[op[1]])
+		elif kind == 'cookie_value_bad':
+			e.value = op[1]
+		elif kind == 'ser_bad':
+			e.params[op[1]] = BAD5[op[2]]
+			try:
+				bytes(e)
+			finally:
+				del e.params[op[1]]
+		elif kind == 'value_bad':
+			old = e.value
+			e.value = BAD5[op[1]]
+			try:
+				bytes(e)
+			finally:
+				e.value = old
+		elif kind == 'boundary_bad':
+			e.boundary = op[1]
+			try:
+				e.sanitize()
+			finally:
+				del e.params['boundary']
+		else:
+			raise ValueError(kind)
+	except Exception as exc:
+		if isinstance(exc, ValueError) and str(exc) == kind:
+			raise
+		return type(exc).__name__
+	return None
+
+
+def _refuse(c):
+	I = _impl()
+	clsname = _cls5(c)
+	cls = I[clsname]
+	mk = lambda: _new5(cls, c, dict(_pairs5(c)))
+	e, twin = mk(), mk()
+	log = []
+	for op in c['ops']:
+		before = (bytes(e).hex(), _elem_obs(e, clsname))
+		raised = _refused5(e, cls, c, op)
+		log.append({'op': op[0], 'raised': raised, 'same': (bytes(e).hex(), _elem_obs(e, clsname)) == before, 'wire': bytes(e).hex()})
+	_apply5(e, c['then'][1:])
+	_apply5(twin, c['then'][1:])
+	o = _ser5(e, clsname)
+	o['log'] = log
+	o['twin'] = bytes(twin).hex()
+	return o
+
+
+def _apl(c):
+	import random
+	from httoop.header.element import HEADER, HeaderElement
+	I = _impl()
+	H = I['Headers']
+	lcls = c['lcls']
+	rng = random.Random(c['ows'])
+	sp = lambda i: c['spell'][i % len(c['spell'])]
+	built, wires = [], []
+	for m in c['elems']:
+		cls = I[lcls] if lcls != 'generic' else HEADER.get(c['field'], HeaderElement)
+		built.append(_new5(cls, m, dict(_pairs5(m))))
+		wires.append(bytes(built[-1]))
+	n = len(wires)
+	refused = []
+
+	def add(h, i):
+		m, how, name = c['elems'][i], c['how'][i], sp(i)
+		args = tuple(m['cookie']) if m['cls'] == 'cookie' else (m['value'],)
+		if how == 'bytes':
+			h.append(name, wires[i])
+		elif how == 'str':
+			h.append(name, wires[i].decode('latin-1'))
+		elif how == 'bytearray':
+			h.append(name, bytearray(wires[i]))
+		elif how == 'kw':
+			h.append(name.encode('ascii') if i % 2 else name, '='.join(args) if i % 3 else '='.join(args).encode('latin-1'), **dict((n_, _tv5(v['t'], m['vt'][j])) for j, (n_, v) in enumerate(m['params'])))
+		elif how == 'elem':
+			h.append_element(name, *(args + (dict(_pairs5(m)),)))
+		elif how == 'elempairs':
+			h.append_element(name, *args, params=list(_pairs5(m)))
+		elif how == 'elemiter':
+			h.append_element(name, *args, params=iter(_pairs5(m)))
+		else:
+			raise ValueError(how)
+
+	def between(h, i):
+		what = c['inter'][i]
+		if what == 'other':
+			h['X-Other-%d' % i] = 'x%d' % i
+		elif what == 'observe':
+			name = sp(i + 1)
+			h.elements(name), name in h, h.get(name), len(h), list(h), h.compose(), repr(h), h.values(name), h.get_element(name), h.getbytes(name), bool(h), dict(h), h.items()
+		elif what.startswith('refuse:'):
+			try:
+				if what == 'refuse:param':
+					h.append(sp(i), 'tok', p=BAD5['surrogate'])
+				elif what == 'refuse:name':
+					h.append('Bad Name', 'x')
+				elif what == 'refuse:elem':
+					h.append_element('Content-Type', 'multipart/x', {'boundary': 'b\x01ad'})
+				else:
+					h.append(sp(i), BAD5['surrogate'])
+				refused.append(None)
+			except Exception as exc:
+				refused.append(type(exc).__name__)
+
+	path = c['path']
+	if path == 'lines':
+		lines = []
+		for i in range(n):
+			if c['inter'][i] == 'other':
+				lines.append(b'X-Other-%d: x%d' % (i, i))
+			lines.append(sp(i).encode('ascii') + rng.choice([b': ', b':', b':  ', b':\t']) + wires[i] + rng.choice([b'', b'', b' ']))
+		h = H()
+		h.parse(b'\r\n'.join(lines))
+	elif path == 'merge':
+		h, b = H(), H()
+		for i in range(n):
+			between(h if i < c['cut'] else b, i)
+			add(h if i < c['cut'] else b, i)
+		h.merge(b)
+	else:
+		h = H()
+		start = 0
+		if path == 'mixed':
+			start = c['cut']
+			h[sp(0)] = (I[lcls] if lcls != 'generic' else HEADER.get(c['field'], HeaderElement)).join(wires[:start])
+		for i in range(start, n):
+			between(h, i)
+			add(h, i)
+	o = {'raw': (h.getbytes(c['field']) or b'').hex(), 'refused': refused, 'built': [_elem_obs(e, lcls) for e in built]}
+	try:
+		o['got'] = [_elem_obs(e, lcls) for e in h.elements(c['read'])]
+	except Exception as exc:
+		o['got'] = {'err': _exc(exc)}
+	o['others'] = sorted([k, v.hex()] for k, v in dict.items(h) if k.lower().startswith('x-other-'))
+	try:
+		h2 = H()
+		h2.parse(h.compose()[:-4])
+		o['got2'] = [_elem_obs(e, lcls) for e in h2.elements(c['read'])]
+	except Exception as exc:
+		o['got2'] = {'err': _exc(exc)}
+	return o
+
+
 def observe(c):
 	I = _impl()
 	k = c['k']
+	if k in ('alias', 'types', 'refuse', 'apl'):
+		try:
+			return {'alias': _alias, 'types': _types, 'refuse': _refuse, 'apl': _apl}[k](c)
+		except Exception as exc:
+			return {'err': _exc(exc)}
 	if k == 'format':
 		cls = I['cookie' if c['cookie'] else 'generic']
 		try:
@@ -1003,7 +1734,7 @@ def coq_case(c, o):
 			return 'CBad'
 		out = 'None' if o.get('err') == 'unicode' else ohex(o['out'])
 		return 'CFormat %s %s %s %s' % (B(c['cookie']), X(c['name'].encode('utf-8')), cpval(c['v']), out)
-	if c.get('nocoq') or k in ('seq', 'alt', 'charset', 'reg'):
+	if c.get('nocoq') or k in ('seq', 'alt', 'charset', 'reg', 'alias', 'types', 'refuse', 'apl'):
 		return None
 	if k in ('compose', 'rt'):
 		if c['cls'] == 'ctype' and _bytes_boundary(c):
@@ -1061,6 +1792,135 @@ def _cmp_elem(c, built, back, what):
 	return None
 
 
+# ------------------------------------------------------------------ oracle (wave 5)
+def _want5(cls, value, cookie, params):
+	"""what must come back: the element value (a disposition type in lower case), the cookie pair, the parameters in the order they were given"""
+	w = {'value': _u8(value), 'params': [[n.encode('utf-8').hex(), _u8(t)] for n, t in params]}
+	if cls == 'cookie':
+		w['value'] = _u8('%s=%s' % tuple(cookie))
+		w['cookie'] = [_u8(cookie[0]), _u8(cookie[1])]
+	return w
+
+
+def _cmp5(want, got, what):
+	if isinstance(got, dict) and got.get('err'):
+		return '%s: raised %s' % (what, got['err'])
+	if got['value'] != want['value'] or got.get('cookie') != want.get('cookie'):
+		return '%s: element value differs: expected %s %r got %s %r' % (what, want['value'], want.get('cookie'), got['value'], got.get('cookie'))
+	if dict((a, b) for a, b in got['params']) != dict((a, b) for a, b in want['params']) or len(got['params']) != len(want['params']):
+		return '%s: parameters differ: expected %s got %s' % (what, json.dumps(want['params'])[:600], json.dumps(got['params'])[:600])
+	if [a for a, b in got['params']] != [a for a, b in want['params']]:
+		return '%s: the order of the parameters is not the order in which they were given: expected %s got %s' % (what, json.dumps([a for a, b in want['params']])[:300], json.dumps([a for a, b in got['params']])[:300])
+	return None
+
+
+def _ref_apply5(ref, st):
+	"""the same change on the reference data: ref = {'value', 'cookie', 'params': OrderedDict name -> text}"""
+	op = st[0]
+	p = ref['params']
+	if op == 'set':
+		p[st[1]] = st[2]['t']
+	elif op in ('del', 'pop'):
+		del p[st[1]]
+	elif op == 'update':
+		for n, v in st[1]:
+			p[n] = v['t']
+	elif op == 'setdefault':
+		p.setdefault(st[1], st[2]['t'])
+	elif op == 'clear':
+		p.clear()
+	elif op == 'attr':
+		p[st[1]] = st[2]
+	elif op == 'value':
+		ref['value'] = st[1]
+	elif op == 'cookie':
+		ref['cookie'] = [st[1], st[2]]
+
+
+def _alias_oracle(c, o):
+	from collections import OrderedDict
+	mk = lambda value, cookie: {'value': value, 'cookie': list(cookie), 'params': OrderedDict((n, v['t']) for n, v in c['params'])}
+	refs = {'A': mk(c['value'], c['cookie']), 'B': mk(c['value2'], c['cookie2'])}
+	arg = [[n, v['t']] for n, v in c['params']]
+	for st in c['steps']:
+		if st[0] != 'arg':
+			_ref_apply5(refs[st[0]], st[1:])
+		elif st[1] == 'set':
+			arg.append([st[2], st[3]['t']])
+		elif st[1] == 'delfirst':
+			arg.pop(0)
+		else:
+			del arg[:]
+	what = 'two elements from one argument object (%s of type %s; second element from %s), after %s' % (c['cls'], c['ptype'], c['src'], json.dumps(c['steps'])[:300])
+	wants = {}
+	for x in 'AB':
+		wants[x] = _want5(c['cls'], refs[x]['value'], refs[x]['cookie'], refs[x]['params'].items())
+		f = _cmp5(wants[x], o[x]['back'], '%s: element %s serialised and parsed (wire %s)' % (what, x, o[x]['out'][:300]))
+		if f:
+			return f
+	if 'arg' in o:
+		want = [[n.encode('utf-8').hex(), _u8(t)] for n, t in arg]
+		if o['arg'] != want:
+			return '%s: the argument object was changed by the elements built from it (or not changed by its owner): expected %s, holds %s' % (what, json.dumps(want)[:300], json.dumps(o['arg'])[:300])
+	if 'list' in o:
+		if isinstance(o['list'], dict) or len(o['list']) != 2:
+			return '%s: both elements appended to one list field: %s' % (what, json.dumps(o['list'])[:300])
+		for x, got in zip('AB', o['list']):
+			f = _cmp5(wants[x], got, '%s: element %s as member of a list field' % (what, x))
+			if f:
+				return f
+	return None
+
+
+def _types_oracle(c, o):
+	what = 'element built with build=%s from parameters of type %s (keys %s, values %s), subclass %s' % (c['build'], c['ptype'], c['kt'], c['vt'], c.get('sub'))
+	want = _want5(c['cls'], c['value'], c['cookie'], [(n, v['t']) for n, v in c['params']])
+	f = _cmp5(want, o['back'], '%s: parsed from %s (wire %s)' % (what, c['parse_as'], o['out'][:300]))
+	if f:
+		return f
+	if not o.get('backtype') or not o.get('given'):
+		return '%s: parse() of a subclass returns another class, or changed its argument: %r %r' % (what, o.get('backtype'), o.get('given'))
+	if o['out'] != o['ref'] and not (c.get('sub') == 'qp' and any(ord(ch) > 127 for ch in c['value'])):
+		return '%s: serialises differently from the same data given as a dict of str to the constructor: %s, reference %s' % (what, o['out'][:300], o['ref'][:300])
+	return None
+
+
+def _refuse_oracle(c, o):
+	from collections import OrderedDict
+	for i, l in enumerate(o['log']):
+		if not l['same']:
+			return 'element after a refused / empty call (%s, raised %s; calls %s): the element is no longer what it was: %s' % (l['op'], l['raised'], json.dumps(c['ops'])[:200], l['wire'][:300])
+	ref = {'value': c['value'], 'cookie': list(c['cookie']), 'params': OrderedDict((n, v['t']) for n, v in c['params'])}
+	_ref_apply5(ref, c['then'][1:])
+	what = 'element used after calls that raised (%s)' % (json.dumps([[l['op'], l['raised']] for l in o['log']])[:200],)
+	f = _cmp5(_want5(c['cls'], ref['value'], ref['cookie'], ref['params'].items()), o['back'], '%s (wire %s)' % (what, o['out'][:300]))
+	if f:
+		return f
+	if o['out'] != o['twin']:
+		return '%s: serialises differently from an element on which the refused calls were never made: %s, twin %s' % (what, o['out'][:300], o['twin'][:300])
+	return None
+
+
+def _apl_oracle(c, o):
+	what = 'list field %s built member by member (path %s, members added as %s, in between %s)' % (c['field'], c['path'], json.dumps(c['how']), json.dumps(c['inter']))
+	wants = [_want5(m['cls'], m['value'], m['cookie'], [(n, v['t']) for n, v in m['params']]) for m in c['elems']]
+	for key, how in (('got', 'read through Headers.elements'), ('got2', 'composed as a header block, parsed and read through Headers.elements')):
+		got = o[key]
+		if isinstance(got, dict):
+			return '%s, %s: raised %s (field value %s)' % (what, how, got['err'], o['raw'][:400])
+		if len(got) != len(wants):
+			return '%s, %s: %d members were added, %d come back (field value %s)' % (what, how, len(wants), len(got), o['raw'][:400])
+		for i, (w, g) in enumerate(zip(wants, got)):
+			f = _cmp5(w, g, '%s, %s: member %d (field value %s)' % (what, how, i, o['raw'][:400]))
+			if f:
+				return f
+	start = c['cut'] if c['path'] == 'mixed' else 0
+	others = sorted(['X-Other-%d' % i, (b'x%d' % i).hex()] for i in range(start, len(c['elems'])) if c['inter'][i] == 'other')
+	if o['others'] != others:
+		return '%s: the other fields of the header set: expected %s, holds %s' % (what, json.dumps(others), json.dumps(o['others'])[:300])
+	return None
+
+
 def oracle(c, o):
 	k = c['k']
 	if 'harness_exception' in o or str(o.get('err', '')).startswith('escape'):
@@ -1111,6 +1971,10 @@ def oracle(c, o):
 		if not o['again']:
 			return 'element of the registered class %s serialises differently the second time' % c['field']
 		return None
+	if k in ('alias', 'types', 'refuse', 'apl'):
+		if 'err' in o:
+			return '%s: raised %s' % ({'alias': 'two elements built from one argument object', 'types': 'element built from another argument type', 'refuse': 'element used after a refused call', 'apl': 'list field built member by member'}[k], o['err'])
+		return {'alias': _alias_oracle, 'types': _types_oracle, 'refuse': _refuse_oracle, 'apl': _apl_oracle}[k](c, o)
 	if k == 'seq':
 		if 'err' in o:
 			return 'one element object, changed between two serialisations: raised %s' % o['err']
